@@ -27,7 +27,9 @@ RULE = ("(A) random layouts of 1..5 IP subnets, 0..1 BBMD and 0..3 ordinary node
         "subnets) registered with random BBMDs with TTL 1..300 s, full or partial/asymmetric distribution tables, two-hop "
         "(/32) and one-hop (directed broadcast) entries; a broadcast from every node; (B) life cycles of 1..2 foreign "
         "devices with TTL 1..300: probes (BBMD-side broadcast, foreign-side broadcast, Read-FDT) at random instants while "
-        "registered and every second across each edge +-2 s for silent death, Delete-FDT-Entry and unregistration.  "
+        "registered and every second across each edge +-2 s for silent death, Delete-FDT-Entry and unregistration; every "
+        "Read-FDT answer is also compared with all earlier ones since the entry's last registration: the remaining time "
+        "reported for each listed entry has fallen by the elapsed time +-1 s.  "
         "A case is one layout or one life cycle; distinct by construction")
 
 GRACE = 30.0
@@ -202,6 +204,9 @@ class LifeCycle:
         self.cursor = 0
         self.wit = {"ttl": ttl, "scenario": scenario}
         self.pending_reg = None
+        self.fdt_hist = {}      # address -> [(time of a Read-FDT answer, remaining time it reported)] since the last registration
+        self.last_reg = {}      # address -> time of the last Register-Foreign-Device seen on the wire
+        self.reg_cursor = {}
 
     def scan(self):
         """read registration / deletion acknowledgements for F from the wire (independent BVLC parser)"""
@@ -325,6 +330,8 @@ class LifeCycle:
                 continue
             if p["func"] == 0x07:
                 listed = any(e[0] == "192.168.50.2" for e in p["fdt"])
+                if not self.countdown(rec["t"], p["fdt"], w):
+                    return False
                 for ip, port, ttl, rem in p["fdt"]:
                     if ip == "192.168.50.2" and exp == "must" and rem > ttl + GRACE + 1:
                         self.run.violation("remaining-time-exceeds-ttl-plus-grace", dict(w, ttl=ttl, remaining=rem))
@@ -339,6 +346,35 @@ class LifeCycle:
         if exp == "must-not" and listed:
             self.run.violation("foreign-device-still-listed/%s" % self.phase(t), w)
             return False
+        return True
+
+    def countdown(self, t, fdt, w):
+        """the remaining time a BBMD reports for an entry falls with the clock: between two Read-FDT answers with no
+        Register-Foreign-Device from that address on the wire in between, it has fallen by the elapsed time, give or take
+        the one-second tick (an entry whose countdown stalls outlives what the table itself promised)"""
+        regs = {}
+        for lan in self.nets.values():
+            for rec in lan.frames[self.reg_cursor.get(id(lan), 0):]:
+                if len(rec["octets"]) >= 2 and rec["octets"][0] == 0x81 and rec["octets"][1] == 0x05:
+                    self.last_reg[rec["src"][0]] = max(self.last_reg.get(rec["src"][0], 0.0), rec["t"])
+            self.reg_cursor[id(lan)] = len(lan.frames)
+        for ip, port, ttl, rem in fdt:
+            since = self.last_reg.get(ip)
+            if since is None:
+                continue
+            hist = [(ti, ri) for ti, ri in self.fdt_hist.get(ip, []) if ti > since + 1e-9]
+            if t > since + 1e-9:
+                for ti, ri in hist:
+                    dt, dr = t - ti, ri - rem
+                    self.run.count("countdown_pairs_compared")
+                    if dr < dt - 1.0 - 1e-6 or dr > dt + 1.0 + 1e-6:
+                        self.run.violation("remaining-time-does-not-count-down-with-the-clock/" + ("stalls" if dr < dt else "runs-ahead"),
+                                           dict(w, entry=ip, ttl_of_entry=ttl, first_read_at=round(ti - CLOCK.START, 3), remaining_then=ri,
+                                                second_read_at=round(t - CLOCK.START, 3), remaining_now=rem,
+                                                last_registration_at=round(since - CLOCK.START, 3)))
+                        return False
+                hist.append((t, rem))
+            self.fdt_hist[ip] = hist[-40:]
         return True
 
     def phase(self, t):
@@ -489,7 +525,7 @@ def main():
     thorough = run.tier == "thorough"
     if thorough and run.args.shard is None:
         run.run_shards("rv.props.c13", timeout=3400)
-        return run.finish(require=("layouts", "deliveries_checked", "complete_distributions", "life_cycles", "probes_must", "probes_must_not", "fdt_reads"))
+        return run.finish(require=("layouts", "deliveries_checked", "complete_distributions", "life_cycles", "probes_must", "probes_must_not", "fdt_reads", "countdown_pairs_compared"))
     rng = run.rng("c13")
     n = (80000 if thorough else 600) // (run.shard[1] if thorough else 1) + 1
     for i in range(n):
@@ -510,7 +546,7 @@ def main():
                     continue
                 run.case(("cycle", ttl, scenario, rep), sample={"kind": "life cycle", "ttl": ttl, "scenario": scenario}, sample_key=("cycle", scenario))
                 LifeCycle(run, rng, ttl, scenario).run_cycle()
-    run.finish(require=("layouts", "deliveries_checked", "complete_distributions", "life_cycles", "probes_must", "probes_must_not", "fdt_reads"))
+    run.finish(require=("layouts", "deliveries_checked", "complete_distributions", "life_cycles", "probes_must", "probes_must_not", "fdt_reads", "countdown_pairs_compared"))
 
 
 if __name__ == "__main__":
